@@ -110,7 +110,7 @@ def run(chk):
 
 # ---------------------------------------------------------------------------------------------------------
 # multi-file groups: linking, template lookup order, dependency queries, insertion order
-FILE_PATHS = ["a", "b", "x/c", "x/y/d", "x/e"]
+FILE_PATHS = ["a", "b", "x/c", "x/y/d", "x/e", "a.wxml", "x/c.wxml"]     # (a registered name may itself end in the optional suffix)
 
 
 def spellings(rng, frm, to, suffix):
@@ -128,7 +128,8 @@ def spellings(rng, frm, to, suffix):
         k += 1
     out.append("/".join([".."] * (len(fd) - k) + td[k:]))
     s_ = rng.choice(out)
-    return s_ + (suffix if rng.chance(1, 3) else "")
+    # the optional suffix is removed once: a target whose registered name ends in it must be written with one more
+    return s_ + (suffix if to.endswith(suffix) or rng.chance(1, 3) else "")
 
 
 def text_of(tree):
@@ -156,7 +157,7 @@ def group_stream(chk):
             if p not in chosen and len(chosen) < k:
                 chosen.append(p)
         defs = {p: [t for t in ("t", "u", "v") if r.chance(1, 2)] for p in chosen}
-        scripts = {"s1": "exports.id='S:s1'", "x/s2": "exports.id='S:x/s2'"}
+        scripts = {"s1": "exports.id='S:s1'", "x/s2": "exports.id='S:x/s2'", "s1.wxs": "exports.id='S:s1.wxs'"}
         main = chosen[0]
         for p in chosen[1:]:
             files[p] = "".join('<template name="%s">[%s:%s]</template>' % (t, p, t) for t in defs[p]) + "(%s:main)" % p
